@@ -283,9 +283,12 @@ Spec == Init /\ [][Next]_st
 \* Properties.  `acked` is the last-write-wins map of acknowledged writes and completed deletes.
 MayW(s, k, t) == s.wpc # "idle" /\ <<k, t>> \in s.wcur.pts                     \* a write not yet acknowledged
 MayD(s, k, t) == s.dpc # "idle" /\ InRange(k, t, KeysOf(s.dcur.S), s.dcur.lo, s.dcur.hi)   \* a delete not yet completed
+\* A point targeted by a delete that has not completed is unspecified: tombstones are committed file by file, so
+\* until the delete is done (or after a crash inside it) a read may return the point, nothing, or - when the newest
+\* file was tombstoned first - an older value of the point from an older file.
 OkVal(s, v, k, t) == \/ v = s.acked[k][t]
                      \/ MayW(s, k, t) /\ v = s.wcur.id
-                     \/ MayD(s, k, t) /\ v = 0
+                     \/ MayD(s, k, t)
 Clean == st.taint = {}
 Quiet == st.up /\ st.wpc = "idle" /\ st.dpc = "idle"
 
